@@ -60,6 +60,7 @@ func TestMain(m *testing.M) {
 		envOut = d
 		defer os.RemoveAll(d)
 	}
+	os.MkdirAll(envOut, 0o755)
 	loadKnownFindings()
 	if os.Getenv("VERIF_CHILD") != "" {
 		// re-executed as a child process for a property that needs one
